@@ -1,19 +1,26 @@
 ------------------------------ MODULE MC_Memo ------------------------------
 (* Configurations of Memo (C15): MC_Memo_cached.cfg (3 threads x 2 argument tuples with an      *)
-(* invalidation), MC_Memo_tsc.cfg (3 threads, terminal resized up to twice), both with the edge *)
+(* invalidation, one raising body), MC_Memo_tsc.cfg (2 threads; MC_Memo_tsc3.cfg: 3 threads,      *)
+(* thorough; terminal resized up to twice, one raising body), all with the edge                  *)
 (* dump for the replay under env/sched.py; MC_Memo_var.cfg = body outside the lock.             *)
 EXTENDS Memo, Json, IOUtils
 
 C(a) == [k |-> "call", a |-> a]
 Inv == [k |-> "inv", a |-> 0]
 
-CachedProg == << <<C(1), C(2)>>, <<C(1), Inv, C(1)>>, <<C(2), C(1)>> >>
-TscProg == << <<C(1), C(1)>>, <<C(1), C(1)>>, <<C(1)>> >>
+\* argument tuples of the `cached` probe: f(1), f(hex=FALSE), f(hex=TRUE) - the last two have the same keyword NAMES
+ArgForms == << [pos |-> <<1>>, kw |-> <<>>], [pos |-> <<>>, kw |-> << <<"hex", FALSE>> >>], [pos |-> <<>>, kw |-> << <<"hex", TRUE>> >>] >>
+KwClasses == <<1, 2, 2>>
+CachedProg == << <<C(1), C(2)>>, <<C(3), Inv, C(2)>>, <<C(2), C(3)>> >>
+TscProg == << <<C(1), C(1)>>, <<C(1), C(1)>> >>
+Tsc3Prog == << <<C(1), C(1)>>, <<C(1), C(1)>>, <<C(1)>> >>
 SmallProg == << <<C(1), C(2)>>, <<C(1), C(1)>> >>
+KwProg == << <<C(2), C(3)>>, <<C(3)>> >>
+FailProg == << <<C(1), C(1)>>, <<C(1)>> >>
 
 EnvVariant == IF "VARIANT" \in DOMAIN IOEnv THEN IOEnv.VARIANT ELSE "code"
 
-ASSUME PrintT(<<"CONFIG", ToJson([nt |-> NT, prog |-> Prog, kind |-> Kind])>>)
+ASSUME PrintT(<<"CONFIG", ToJson([nt |-> NT, prog |-> Prog, kind |-> Kind, args |-> ArgForms])>>)
 
 Dump ==
   PrintT(<<"EDGE", ToJson([from |-> View, to |-> View', lvl |-> TLCGet("level"),
